@@ -11,7 +11,7 @@
      quest_small q the question fits the wire format (name <= 255 octets)
      cfg_wf c      the ECS / NSID oracle options have the codes 8 / 3
      hdr_agrees    the library decoded ID and opcode from the packet header            *)
-From Sdns Require Import Common.Base Gen.C06 C06.Model C06.Run C06.Proofs.
+From Sdns Require Import Common.Base Common.GoList Gen.C06 C06.Model C06.WireOpt C06.Run C06.Proofs C06.Proofs_wire.
 Open Scope N_scope.
 
 (* datagram / stream listeners: QR set, the packet's ID and opcode echoed, on every reply *)
@@ -220,3 +220,68 @@ Theorem req_opt_clean_necessary :
     /\ ~ req_opt_clean d /\ options_own tr c (client_opt q) r = false.
 Proof. exact req_opt_clean_necessary_l. Qed.
 Print Assumptions req_opt_clean_necessary.
+
+(* what the ingress guarantees: at the hand-over to the rest of the chain the request's OPT (the
+   object the writer keeps) holds only the forwarded client-subnet copy — for every query *)
+Theorem ingress_req_opt_clean :
+  forall c q e, cfg_wf c -> In e (o_opts (f_wopt (set_edns0 c q))) -> e_code e = code_ecs.
+Proof. exact ingress_req_opt_clean_l. Qed.
+Print Assumptions ingress_req_opt_clean.
+
+(* the premise discharged for the tree as it is: ingress state + any sequence of the tree's four
+   writers (inventory pinned by Proofs_src.gen_opt_writers) on the request's OPT *)
+Theorem no_foreign_option_reflected_tree :
+  forall tr c q strict dn clen r,
+    serve_msg tr c q strict dn clen = Some r -> cfg_wf c ->
+    (forall d o, dn = Some d -> find_req (m_ex d) = Some o ->
+       exists ws, Forall writer_ok ws /\ o_opts o = apply_writers (o_opts (f_wopt (set_edns0 c q))) ws) ->
+    options_own tr c (client_opt q) r = true.
+Proof. exact options_own_tree_l. Qed.
+Print Assumptions no_foreign_option_reflected_tree.
+
+(* the writer itself, for EVERY state of the writer-owned OPT (attached to the response or not,
+   mutated downstream or not) and every additional section: an option that leaves is an Extended
+   DNS Error of the response, an option sitting on the writer-owned OPT at that moment (other than
+   ECS / keepalive — THE unfiltered source req_opt_clean is about), the cookie / NSID generated
+   here, or this server's keepalive *)
+Theorem writer_option_origin :
+  forall c w ex e,
+    In e (ex_opts (shape_ex c w ex)) ->
+    (((In e (ex_opts ex) /\ e_code e = code_ede) \/ In e (wcur_opts w ex) \/ In e (own_opts c w))
+     /\ e_code e <> code_ecs /\ e_code e <> code_keepalive)
+    \/ (w_ka w = true /\ e = keepalive_opt).
+Proof. exact shape_ex_opts. Qed.
+Print Assumptions writer_option_origin.
+
+(* ---- the byte path's OPT as octets (PHASE3 item 3: internal/wire builders, translated) ---- *)
+
+(* FULL: the octets appendWireOPT appends — the translated AppendOPTHeader / AppendOption /
+   AppendOptionString / AppendOptionEDE / FinishOPT, composed in the pinned order — are the wire form
+   of the OPT the model attaches on the byte path, for every body, writer state and WireInfo.
+   Premises: the byte-level inputs describe the abstract configuration (40 cookie octets, NSID text),
+   option payloads are octets, the options fit an RDLENGTH. *)
+Theorem wire_opt_builder_is_model :
+  forall body c w ck nsidstr ede,
+    wire_inputs_ok c ck nsidstr ->
+    (match ede with Some x => octets (snd x) /\ (2 + Z.of_nat (length (snd x)) < 65536)%Z | None => True end) ->
+    (Z.of_nat (length (enc_opts (o_opts (wire_opt c w (option_map ede_eopt ede))))) < 65536)%Z ->
+    append_wire_opt body (w_resp w) (w_do w) (w_cookie w) ck nsidstr (w_nsid w) (w_ka w) ede
+    = body ++ enc_opt 0 (wire_opt c w (option_map ede_eopt ede)).
+Proof. exact append_wire_opt_is_model_l. Qed.
+Print Assumptions wire_opt_builder_is_model.
+
+(* the encoded OPT is as long as the model's size arithmetic (udp_size_bound, write_wire) says *)
+Theorem enc_opt_length : forall xrc o, N.of_nat (length (enc_opt xrc o)) = opt_len o.
+Proof. exact enc_opt_length_l. Qed.
+Print Assumptions enc_opt_length.
+
+(* the listeners' first step, translated wire.ParseHeader: fewer than 12 octets are refused
+   (silence), otherwise the six big-endian words acceptHeader judges *)
+Theorem packet_header_parse :
+  forall pkt,
+    parse_pkt pkt =
+    if (length pkt <? N.to_nat header_len)%nat then None
+    else Some (mk_T_Header (go_be16 (firstn 2 pkt)) (go_be16 (firstn 2 (skipn 2 pkt))) (go_be16 (firstn 2 (skipn 4 pkt)))
+                           (go_be16 (firstn 2 (skipn 6 pkt))) (go_be16 (firstn 2 (skipn 8 pkt))) (go_be16 (firstn 2 (skipn 10 pkt)))).
+Proof. exact gen_ParseHeader_l. Qed.
+Print Assumptions packet_header_parse.
